@@ -16,7 +16,7 @@ RULE = ('every validator set of <= 3 members with weights in 1..3 (quick: a seed
         '(thorough 4, sampled) over {valid_i, invalid_i, other-block_i, foreign, foreign-invalid}; plus weight patterns hitting exactly 2/3 '
         'and random larger sets (up to 12 validators); distinct = distinct (weights, item sequence)')
 ASSUMPTIONS = ['signature items are labelled by construction with PyNaCl (valid = signed by that validator over this block id; invalid = one '
-               'flipped bit; other = signed over a different block id; long = a signature over a longer message ending in this block\'s payload, followed by the extra bytes; short / padded = 63 / 65 bytes; foreign = key outside the set)', 'validator descriptors are built directly or taken from ValidatorDescr.deserialize (weights up to 2^64 - 1)',
+               'flipped bit; other = signed over a different block id; long = a signature over a longer message ending in this block\'s payload, followed by the extra bytes; short / padded = 63 / 65 bytes; foreign = key outside the set; alias = a valid signature of a member listed under the ADNL address of that member instead of its node id: an unknown signer); the signature list is passed as list / tuple / one-shot iterator / generator', 'validator descriptors are built directly or taken from ValidatorDescr.deserialize (weights up to 2^64 - 1)',
                'a set in which a signer repeats but whose distinct signers already exceed 2/3 may be accepted or rejected (the property allows '
                'either reading of "counted more than once")', 'weights below 2^20 use TLC integers; 64-bit weights are limb vectors compared by TonNat (lemmas in MC_Nat)']
 MAGIC_ID = b'\xc6\xb4\x13\x48'
@@ -47,6 +47,9 @@ class World:
     def node_id(self, key):
         return hashlib.sha256(MAGIC_ID + key.verify_key.encode()).digest()
 
+    def adnl(self, key):
+        return hashlib.sha256(b'adnl' + key.verify_key.encode()).digest()
+
     def item(self, s, k):
         key = self.keys[s - 1] if s else self.foreign
         msg = self.tosign if k != 'other' else self.tosign_other
@@ -65,6 +68,10 @@ class World:
         elif k == 'padded':
             sig = sig + bytes([self.rng.getrandbits(8)])
         hx = self.node_id(key).hex()
+        if k == 'alias':
+            # a genuine signature of a set member, listed under the member's ADNL address instead of its node id
+            # (sha256(magic + pubkey) is the only id a validator has): an unknown signer
+            hx = self.adnl(key).hex()
         # hex spelling is free: the same node id may arrive in any letter case
         hx = self.rng.choice([hx, hx.upper(), ''.join(c.upper() if self.rng.random() < 0.5 else c for c in hx)])
         return {'node_id_short': hx, 'signature': sig}
@@ -77,7 +84,7 @@ class World:
             for j, w in enumerate(weights):
                 b = Builder().store_uint(0x73 if j % 2 else 0x53, 8).store_uint(0x8e81278a, 32).store_bytes(self.keys[j].verify_key.encode()).store_uint(w, 64)
                 if j % 2:
-                    b.store_bytes(bytes(32))
+                    b.store_bytes(self.adnl(self.keys[j]))
                 nodes.append(ValidatorDescr.deserialize(b.end_cell().begin_parse()))
         else:
             nodes = [ValidatorDescr('validator', SigPubKey(self.keys[j].verify_key.encode()), w) for j, w in enumerate(weights)]
@@ -98,7 +105,10 @@ class World:
                         check_block_signatures(nodes, prior, blk2)
                     except Exception:
                         pass
-            check_block_signatures(nodes, its, self.blk)
+            # the signature list in any iterable form (list, tuple, one-shot iterator, generator)
+            form = self.rng.choice(['list', 'list', 'tuple', 'iter', 'gen'])
+            arg = its if form == 'list' else tuple(its) if form == 'tuple' else iter(its) if form == 'iter' else (x for x in its)
+            check_block_signatures(nodes, arg, self.blk)
             rec['out'] = {'ok': 1}
         except Exception as e:
             rec['out'] = {'err': type(e).__name__}
@@ -175,6 +185,13 @@ def generate(tier, seed, ctx):
         for k in ('long', 'short', 'padded'):
             out.append(w.run(weights, [(s, 'valid') for s in good] + [(bad, k)]))
             out.append(w.run(weights, [(bad, k)] + [(s, 'valid') for s in good], parsed=True))
+    # a member's signature listed under its ADNL address (descriptors of the validator_addr#73 form carry one): every small shape,
+    # alone and next to the same member's properly listed signature
+    for weights in ([2, 1, 1], [1, 2], [1, 3, 1], [5, 5]):
+        for j in range(1, len(weights) + 1):
+            out.append(w.run(weights, [(j, 'alias')], parsed=True))
+            out.append(w.run(weights, [(j, 'valid'), (j, 'alias')], parsed=True))
+            out.append(w.run(weights, [(j, 'alias'), (j, 'valid')] + [(x, 'valid') for x in range(1, len(weights) + 1) if x != j], parsed=True))
     for weights, signers in (([1, 1, 1], [1, 2]), ([2, 1], [1]), ([3, 3, 3], [1, 2]), ([1, 1, 1], [1, 2, 3]), ([2, 2, 2], [1, 2, 2]),
                              ([1, 2], [2, 2]), ([4, 1, 1], [1]), ([4, 1, 1], [1, 1]), ([], []), ([5], []), ([5], [1]), ([1, 1, 1], [1, 1, 1])):
         out.append(w.run(weights, [(s, 'valid') for s in signers], layout=True))
